@@ -76,7 +76,7 @@ CHECKS = {
         "design_ref": "DESIGN.md §5 C05",
     },
     "C06": {
-        "level": "model_checking", "shards": 9, "deadline_quick": 150, "deadline_thorough": 1500,
+        "level": "model_checking", "shards": 12, "deadline_quick": 150, "deadline_thorough": 1500,
         "engine": "E-WORLD",
         "technique": "explicit-state model checking of the implementation: BFS by replay around one real node (three routers) with scripted peers of five protocol versions; recipient-set oracle on the wire log",
         "rule": WORLD_RULE,
